@@ -176,6 +176,10 @@ var kinds = []kindT{
 	{name: "alphaOnce", t: trig{contains: "alpha?", insensitive: true}, write: "1", once: true},
 	{name: "alphaNoResetOnce", t: trig{contains: "alpha?", insensitive: true}, write: "1", once: true, noReset: true},
 	{name: "alphaNext", t: trig{contains: "alpha?", insensitive: true}, write: "9", next: 4*cm.Ms + cm.Ms/2}, // room for the answer to arrive two deviations (extra cuts / held deliveries) late and off the tick grid
+	// kinds 8 and 9 (non-ASCII trigger text, case-insensitive) are only combined with scripts 10 and 11: with one
+	// deviation the device's chunk is cut at every byte, also inside the two-byte characters
+	{name: "senal", t: trig{contains: "señal?", insensitive: true}, write: "1"},
+	{name: "betaNotSenal", t: trig{contains: "beta?", notContains: "SEÑAL?", insensitive: true}, write: "3"},
 }
 
 // device scripts: the k-th time a line is received the k-th response is emitted (nothing afterwards)
@@ -192,6 +196,9 @@ var scripts = []map[string][]string{
 	{"go": {"alpha? " + filler + " beta? "}, "1": {"done#"}, "2": {"done#"}, "3": {"done#"}},
 	{"go": {"alpha? "}, "1": {"some banner text, then beta? "}, "4": {"some banner text, then beta? "}, "2": {"a longer closing line and then done#"}, "3": {"a longer closing line and then done#"}},
 	{"go": {"alpha? "}, "1": {"beta? followed by a long tail of text"}, "2": {"done# and more text after it, longer than before"}, "3": {"done# and more text after it, longer than before"}},
+	// scripts 10 and 11: trigger text with two-byte characters, in the other case than the callback's text
+	{"go": {"SEÑAL? "}, "1": {"beta? "}, "2": {"done#"}, "3": {"done#"}},
+	{"go": {"señal? beta? "}, "1": {"done#"}, "2": {"done#"}, "3": {"done#"}},
 }
 
 // (scripts 8 and 9: after a reset the next chunk is longer than everything accumulated before it, with the next
@@ -294,12 +301,12 @@ func dlgScenario(list []int, si int, b sched.Bounds) sched.Scenario {
 			var t0, t1 time.Duration
 			e.Go("client", func() {
 				gopts := cm.BaseOpts(tr, cm.Ms, time.Second, 0)
-				if si >= 8 {
+				if si == 8 || si == 9 {
 					// no read delay: the read loop is already waiting in the transport when the callback writes, so
 					// the answer can be queued before the callback loop polls again
 					gopts = cm.BaseOpts(tr, 0, time.Second, 0)
 				}
-				if si >= 6 {
+				if si >= 6 && si < 10 {
 					gopts = append(gopts, options.WithPromptSearchDepth(48))
 				}
 				g, nerr := generic.NewDriver("dev", gopts...)
@@ -433,7 +440,7 @@ func scenarios(tier string) []sched.Scenario {
 		if len(l) == 3 {
 			return
 		}
-		for k := range kinds {
+		for k := range kinds[:8] {
 			dup := false
 			for _, x := range l {
 				if x == k {
@@ -448,6 +455,9 @@ func scenarios(tier string) []sched.Scenario {
 	gen(nil)
 	for si := range scripts {
 		for _, l := range lists {
+			if si >= 10 {
+				continue // the non-ASCII scripts run with their own lists below
+			}
 			if si >= 8 {
 				// without read delay the next chunk may be consumed before a trigger that still holds (no reset) is
 				// evaluated again; the property does not order the two, the reference does: keep to resetting kinds
@@ -472,6 +482,40 @@ func scenarios(tier string) []sched.Scenario {
 			out = append(out, dlgScenario(l, si, b))
 		}
 	}
+	var ulists [][]int
+	upool := []int{8, 9, 1, 2}
+	var ugen func(l []int)
+	ugen = func(l []int) {
+		non := false
+		for _, x := range l {
+			non = non || x >= 8
+		}
+		if non {
+			ulists = append(ulists, append([]int{}, l...))
+		}
+		if len(l) == 3 {
+			return
+		}
+		for _, k := range upool {
+			dup := false
+			for _, x := range l {
+				dup = dup || x == k
+			}
+			if !dup {
+				ugen(append(l, k))
+			}
+		}
+	}
+	ugen(nil)
+	for _, si := range []int{10, 11} {
+		for _, l := range ulists {
+			b := sched.Bounds{Env: 1, Pre: 1, Total: 1}
+			if tier == "thorough" {
+				b = sched.Bounds{Env: 2, Pre: 2, Total: 2}
+			}
+			out = append(out, dlgScenario(l, si, b))
+		}
+	}
 	return out
 }
 
@@ -480,7 +524,7 @@ func TestCheck(t *testing.T) {
 		ID:    "C18",
 		Level: "model_checking",
 		Rule: "predicate leg: contains in {none,ab,AB} x not-contains in {none,x,X} x regex in {nil, a.b, (?i)A.B} x case-insensitive on/off x every buffer over {a,b,A,B,x,X,.} up to length 5 (6 thorough), each observed through a real SendWithCallbacks session over a one-chunk device; " +
-			"dialogue leg: every ordered list of 1..3 distinct callbacks from 8 kinds (contains, not-contains, regex+complete, case-sensitive, once, no-reset+once, next-timeout) x 10 causal device scripts (two with output longer than the lowered prompt search depth, two whose post-reset chunks are longer than everything accumulated before) x every execution within the deviation bound (chunk cuts/holds, reader-vs-caller switches); oracle: reference implementation of the property run over the chunk sequence the driver actually consumed; distinct = distinct (cell, schedule, observation)",
+			"dialogue leg: every ordered list of 1..3 distinct callbacks from 8 kinds (contains, not-contains, regex+complete, case-sensitive, once, no-reset+once, next-timeout) x 10 causal device scripts (two with output longer than the lowered prompt search depth, two whose post-reset chunks are longer than everything accumulated before) x every execution within the deviation bound (chunk cuts/holds, reader-vs-caller switches), plus every list of 1..3 from {non-ASCII contains, non-ASCII not-contains, beta, regex+complete} holding a non-ASCII kind x 2 scripts whose trigger text has two-byte characters in the other case (every cut, also inside a character); oracle: reference implementation of the property run over the chunk sequence the driver actually consumed; distinct = distinct (cell, schedule, observation)",
 		Assumptions: []string{"regexes are lower-case or carry their own (?i) flag (the property's own restriction)", "callback lists that would re-fire for ever (no reset, no once) are outside the family"},
 		Scenarios:   scenarios,
 		Budget:      map[string]time.Duration{"quick": 5 * time.Minute, "thorough": 40 * time.Minute},
